@@ -93,10 +93,15 @@ Example ex_ctree_fits : fits ex_ctree.
 Proof. unfold fits. vm_compute. reflexivity. Qed.
 Example ex_ctree_wf : cwf std_leaves ex_ctree.
 Proof.
-  cbn [cwf ex_ctree]. repeat split; try reflexivity;
-    try (apply std_canon_large; repeat split; vm_compute; reflexivity);
-    apply std_canon_leaf; (split; [reflexivity|split; [reflexivity|split; [vm_compute; reflexivity|]]]);
-    vm_compute; intros; try discriminate.
+  assert (L : forall nm p, length nm = 4%nat -> std_kind nm = KLeaf -> (lenN p < 100)%N -> cwf std_leaves (CLeaf nm p)).
+  { intros nm p H1 H2 H3. split; [exact H1|]. apply std_canon_leaf. split; [exact H1|]. split; [exact H2|].
+    split; [lia|]. intros _. unfold max_normal_payload. lia. }
+  cbn [cwf ex_ctree]. split; [reflexivity|]. split; [reflexivity|].
+  split. { split; [reflexivity|]. split; [reflexivity|exact I]. }
+  split. { apply L; reflexivity. }
+  split. { split; [reflexivity|]. apply std_canon_large. split; [reflexivity|]. split; [reflexivity|]. split; reflexivity. }
+  split. { apply L; reflexivity. }
+  exact I.
 Qed.
 Example ex_ctree_bytes : cenc ex_ctree =
   [0;0;0;54;109;111;111;102; 0;0;0;8;116;114;97;102; 0;0;0;9;102;114;101;101;7;
